@@ -25,7 +25,15 @@ import (
 	"verif/simplan"
 )
 
-const verifDir = "/verif"
+// verifDir is /verif; VERIF_DIR points a background run at its own snapshot of it
+// (vp run), so that it neither reads binaries being rebuilt nor overwrites the
+// evidence of the checks in /verif.
+var verifDir = func() string {
+	if d := os.Getenv("VERIF_DIR"); d != "" {
+		return d
+	}
+	return "/verif"
+}()
 const goBin = "/opt/veriftools/go1.26.8/bin/go"
 
 func buildEnv() []string {
